@@ -877,7 +877,10 @@ struct Exec {
             }
         }
         // ---- pre-pass: fresh-object outcomes before any history
-        for (auto &k : keys) if (!ref_pre.count(k)) ref_pre[k] = run_ref(k);
+        // in REVERSE order of first use: the reference for a late operation is taken with as little process history as
+        // possible - state the library keeps per thread or per process (not per object) reaches a fresh object too, and a
+        // pre-pass that replayed the history's own order would be wrong in exactly the same way
+        for (size_t i = keys.size(); i-- > 0; ) if (!ref_pre.count(keys[i])) ref_pre[keys[i]] = run_ref(keys[i]);
         rec("REFS " + std::to_string(ref_pre.size()), "REFS " + std::to_string(ref_pre.size()));
 
         // ---- the history
